@@ -64,6 +64,7 @@ struct vthread {
 	const void	*blocked_on;	/* mutex address / joined vthread */
 	long long	deadline;	/* ST_WAIT: virtual time at which the wait times out; -1 = never */
 	unsigned long	seen_activity;	/* ST_WAIT: activity counter at the last fruitless poll */
+	int		plain;		/* a thread of the program that has no ivykis state (`thread k plain`) */
 	int		waits_done, wait_calls, cb_count;
 	int		is_harness;	/* created by the scenario, not by the library */
 	int		section;	/* scenario thread section it executes, or -1 */
@@ -792,6 +793,9 @@ static int core_action(char *op, int guard, char *a1, char *a2)
 		iv_invalidate_now();
 	} else if (!strcmp(op, "yield")) {
 		mt_yield();
+	} else if (!strcmp(op, "close0")) {
+		/* the program closes its standard input (a daemon): descriptor number 0 is handed out to whatever is created next */
+		close(0);
 	} else if (!strcmp(op, "ledger")) {
 		mt_ledger("LEDGER");
 	} else if (!strcmp(op, "nop")) {
@@ -1108,6 +1112,22 @@ static void run_section(int sec)
 			op = strtok_r(work, " \t\n", &save);
 			if (!strcmp(op, "do"))
 				run_actions(save);
+		}
+		/* it stays around (blocked in something that is not ivykis, interruptible by signals) until every ivykis thread is done */
+		VT[me_].plain = 1;
+		for (;;) {
+			int t, alive = 0;
+			for (t = 0; t < MT_MAXT; t++)
+				if (VT[t].state != ST_UNUSED && VT[t].state != ST_DONE && !VT[t].plain)
+					alive = 1;
+			if (!alive)
+				break;
+			VT[me_].state = ST_WAIT;
+			VT[me_].deadline = -1;
+			VT[me_].seen_activity = activity;
+			block_and_switch();
+			VT[me_].state = ST_RUNNABLE;
+			deliver_pending_signals();
 		}
 		mt_log("PLAIN-END\n");
 		return;
